@@ -16,7 +16,7 @@ CLAIMS = {
          "diffed against the real Parser object on random op sequences. Termination/validation of package graphs and artefacts is C16/C15 "
          "(Props/C15.lean validate_iff, corrupt_core_rejected, other_version_*_rejected). SEARCHED, not proved: every entry point (parse, compile incl. the "
          "CLI's error formatting and all stage pretty-printers, check_package, build_package, read_core, link_cores) on random texts, byte/token/"
-         "same-class-token mutations of the corpus and of generated programs, type-directed generated programs (well-typed and with one ill-typed hole), "
+         "same-class-token mutations of the corpus and of generated programs, type-directed generated programs (well-typed and with one ill-typed hole), the infinite-type family `occurs` (every way two inference variables are unified first x every way to tie the knot), "
          "22 nesting forms to depth 200, package directory layouts (missing/misnamed/cyclic/self-importing/invalid-UTF-8/multi-file), altered artefacts "
          "(random bytes/JSON, truncation, every kind of single-value change) — each case in a child process (8 MiB main-thread stack) under catch_unwind "
          "with a CPU-time watchdog; oracle: Ok or Err with at least one error diagnostic, every diagnostic range inside the text on char boundaries, no panic, "
@@ -330,7 +330,7 @@ CLAIMS = {
          "rowan and the observable behaviour of the queries on every tie position. SEARCHED, not proved: that hover_type / dot_completions / "
          "colon_colon_completions and the wasm-app wrappers return normally (catch_unwind + 5 s watchdog) on every prefix (token boundaries and "
          "mid-token) and token-level mutation of corpus, seed, generated and token-soup programs x every (line, col) incl. positions outside the "
-         "text; that hover at every TAST identifier of an accepted program equals the TAST type; that every offered completion, inserted, does not "
+         "text; that hover at every TAST identifier of an accepted program equals the TAST type (all pipeline corpus programs in the quick tier, plus the `late:*` family: every type constructor around an element whose type is resolved late); that every offered completion, inserted, does not "
          "draw the diagnostic a non-existent name draws.",
     design_ref="§5 C20, §C20 — as built",
     note="Trusted: Lean kernel; extract_query_glue (regex over query.rs); harness/src/c20.rs + crash.rs; line-index and rowan behave as modelled "
